@@ -56,6 +56,39 @@ def _run(cfg):
     return [head] + log
 
 
+SCHED_CONFIGS = [
+    dict(order=['a', 'b'], att={'a': [], 'b': []}, wrong=[], fail={'a': 'none', 'b': 'none'}, polls=['a', 'b'],
+         writes=['b'], acc={'a': 'init', 'b': 'init'}, exported=['a', 'b']),
+    dict(order=['a', 'b', 'c'], att={'a': ['b'], 'b': ['c'], 'c': []}, wrong=[], fail={m: 'none' for m in 'abc'},
+         polls=['a', 'b', 'c'], writes=['a', 'c'], acc={m: 'init' for m in 'abc'}, exported=['a', 'b', 'c']),
+    dict(order=['c', 'a', 'b'], att={'a': ['c'], 'b': ['c'], 'c': []}, wrong=[], fail={m: 'none' for m in 'abc'},
+         polls=['a', 'b'], writes=['b'], acc={m: 'start' for m in 'abc'}, exported=['a', 'b']),
+]
+
+
+def _explore(args):
+    """schedules of the server thread against the poll threads (start events, configured writes, shutdown)"""
+    ci, mode, seed, nruns = args
+    from .. import detsched as ds
+    from ..lifeworld import run_config
+    cfg = SCHED_CONFIGS[ci]
+    head = {'ev': 'cfg', 'order': cfg['order'], 'att': cfg['att'], 'wrong': cfg['wrong'], 'fail': cfg['fail'],
+            'polls': cfg['polls'], 'writes': cfg['writes']}
+    out = []
+    if mode == 'dfs':
+        class Run:
+            def __init__(self, r):
+                self.log, self.choices = r
+
+        for s in ds.explore(lambda st: Run(run_config(cfg, st, True)), max_preemptions=2, max_runs=nruns, max_depth=250):
+            out.append(([c for _, c in s.choices], [head] + s.log))
+    else:
+        for k in range(nruns):
+            log, ch = run_config(cfg, ds.RandomStrategy(seed * 7919 + k, stay=0.3 + 0.3 * (k % 3)), True)
+            out.append(([c for _, c in ch], [head] + log))
+    return ci, out
+
+
 def run(chk):
     quick = chk.tier == 'quick'
     tier = 'quick' if quick else 'thorough'
@@ -89,6 +122,22 @@ def run(chk):
                                  writes=['y'], acc={m: acc for m in order}, exported=['x', 'y'],
                                  pinata={'p': ['y']}))
     traces = pool_map(_run, cfgs)
+    # thread schedules: the server thread (start loop, start events, shutdown) against the poll threads
+    jobs = []
+    for ci in range(len(SCHED_CONFIGS)):
+        jobs.append((ci, 'dfs', chk.seed, 150 if quick else 3000))
+        jobs.append((ci, 'rnd', chk.seed + 11, 100 if quick else 3000))
+    seen = set()
+    sched_origin = {}
+    for ci, out in pool_map(_explore, jobs, chunksize=1):
+        for choices, tr in out:
+            if (ci, tuple(choices)) in seen:
+                continue
+            seen.add((ci, tuple(choices)))
+            sched_origin[len(cfgs)] = choices
+            cfgs.append(dict(SCHED_CONFIGS[ci], schedule=choices))
+            traces.append(tr)
+    chk.notes['schedules_explored'] = len(seen)
     verdicts, st, trn, extra = validate_traces('Trace_Lifecycle', traces, 'Trace_Lifecycle.cfg', timeout=1500,
                                               collect=('DEVS',))
     chk.states += st
@@ -119,6 +168,13 @@ def run(chk):
 
 
 def replay(chk, rep):
-    for e in _run(rep['detail']['config']):
-        print(e)
+    from .. import detsched as ds
+    from ..lifeworld import run_config
+    cfg = rep['detail']['config']
+    if 'schedule' in cfg:
+        for e in run_config(cfg, ds.GuidedStrategy(cfg['schedule'])):
+            print(e)
+    else:
+        for e in _run(cfg):
+            print(e)
     return 0
